@@ -71,9 +71,11 @@ def main():
                 fails = L.id_immutability_checks(ns, [tuple(p) for p in c["items"]])
                 r = {"out": "ok" if not fails else "FAIL", "fail": fails[0] if fails else None}
             elif k == "unique_list":
-                got = ns.unique_list(Y.make_iterable(c["form"], c["seq"]))
-                exp = L.ref_first_occ(c["seq"])
-                r = {"out": "-@%s;%s" % (L.dots(got), L.dots(sorted(got))), "req": "oset 1 new:0:Z%s" % L.dots(c["seq"]), "fail": None if got == exp and type(got) is list else ["unique-list-first-occurrence", repr(got)]}
+                got, alias, ufail = L.unique_list_check(ns, c["form"], c["seq"])
+                # whether the result IS the argument is part of the compared output: the two builds
+                # (and the model, whose result is always a new value) must agree on it
+                shown = got if isinstance(got, str) else "-@%s;%s%s" % (L.dots(got), L.dots(sorted(got)), " ALIAS" if alias else "")
+                r = {"out": shown, "req": "oset 1 new:0:Z%s" % L.dots(c["seq"]), "fail": ufail}
             elif k == "c10":
                 # the operation sequences, executor and line format of the result builder (C10):
                 # both builds are compared with each other AND with its Lean model M-RESULT
